@@ -2104,6 +2104,19 @@ Example src_multifield_moves_on :
                   (iref [0%N; 0%N]) PNone (PStr (s2p "zz")) PNone (PBool false) PNone = Ok (PStr (s2p "zz")).
 Proof. vm_compute. reflexivity. Qed.
 
+(* WHY key_ok IS A SIDE CONDITION: source and hand model disagree on a Map value with a non-scalar key followed by an
+   entry that does not serialize.  The dict comprehension of serialize_val inserts (and hashes) each serialized key
+   as it goes -- the tuple key (1, 2) serializes to the list [1, 2]: TypeError: unhashable -- while ser_val collects
+   all the pairs first and meets the ValueError of the second entry (a Decimal).  The real library answers
+   TypeError (checked on the pinned tree: A(m={(1, 2): 1, "b": Decimal("1")}), m = Map). *)
+Example src_model_disagree_nonscalar_key :
+  let w := ser_world (fun _ _ => true) [] [] [FMapAny no_sizec] (fun _ => []) in
+  let v := PDict [(PTuple [PNum (NInt 1); PNum (NInt 2)], PNum (NInt 1)); (PStr (s2p "b"), PNum (NDec 1 0))] in
+  r_serialize_val (src_knot 8 w) (iref [0%N; 0%N]) PNone v PNone (PBool false) PNone = Raise TypeError /\
+  ser_val (fun _ _ => true) [] [] (ser_struct (fun _ _ => true) [] [] 3) (FMapAny no_sizec) v = Raise ValueError /\
+  val_ok v = false.
+Proof. repeat split; vm_compute; reflexivity. Qed.
+
 (* ------------------------------------------------------------------ summary
    generated definition (what the source says now)            hand-written model (Ser/Serialize.v)
    src_serialize_val_refines        serialize_val(field, ..)      ⊑ ser_val rec f v        every f, v, fuel
@@ -2140,3 +2153,4 @@ Print Assumptions declined_inventory.
 Print Assumptions src_nonvacuous.
 Print Assumptions src_nonvacuous_compact.
 Print Assumptions src_multifield_moves_on.
+Print Assumptions src_model_disagree_nonscalar_key.
